@@ -607,7 +607,7 @@ func genPositional(size, parts, tail, victim int, reloadBefore, reloadAfter, cac
 	if reloadBefore {
 		h.Ops = append(h.Ops, op{K: "commit"}, op{K: "reload"})
 	}
-	h.Ops = append(h.Ops, op{K: "remove", ID: ids[victim]})
+	h.Ops = append(h.Ops, op{K: "remove", ID: ids[victim]}, op{K: "remove", ID: ids[victim]}, op{K: "get", ID: ids[victim]})
 	h.Ops = append(h.Ops, audit(ids)...)
 	if reloadAfter {
 		h.Ops = append(h.Ops, op{K: "commit"}, op{K: "reload"})
@@ -797,7 +797,7 @@ func main() {
 	for _, id := range ids {
 		alpha = append(alpha, op{K: "add", ID: id, D: id}, op{K: "remove", ID: id})
 	}
-	maxLen := o.N(4, 6)
+	maxLen := o.N(4, 5)
 	coqLen := o.N(2, 3)
 	nex := 0
 	var rec func(cur []op)
